@@ -1572,3 +1572,102 @@ def accumulator_to_value(tree):
     if changed:
         _link(tree)
     return changed
+
+
+def unfuse_factories(tree, resolve_class):
+    """a class method that constructs an object, calls it once and hands it back only on success --
+
+        @classmethod
+        def match(cls, a, b, x, y):
+            obj = cls(a, b)
+            return obj if obj(x, y) else None
+
+    -- used as `u = C.match(A, B, X, Y)` .. `if u is not None:` reads as the two steps it fuses: `u = C(A, B)`,
+    `u__ok = u(X, Y)`, with `u is not None` / `u is None` reading `u__ok` / `not u__ok`.  Only when u is otherwise
+    used through subscripts and attributes (which the failing case never reaches)."""
+    shapes = {}
+
+    def shape_of(cname, mname):
+        key = (cname, mname)
+        if key in shapes:
+            return shapes[key]
+        shapes[key] = None
+        cls = resolve_class(cname)
+        if cls is None:
+            return None
+        for m in cls.body:
+            if not (isinstance(m, ast.FunctionDef) and m.name == mname and len(m.decorator_list) == 1 and isinstance(m.decorator_list[0], ast.Name)
+                    and m.decorator_list[0].id == 'classmethod'):
+                continue
+            a = m.args
+            if a.vararg or a.kwarg or a.kwonlyargs or a.defaults or len(a.args) < 2:
+                continue
+            body = [x for x in m.body if not _is_doc(x)]
+            if len(body) != 2 or not (isinstance(body[0], ast.Assign) and len(body[0].targets) == 1 and isinstance(body[0].targets[0], ast.Name)
+                                      and isinstance(body[0].value, ast.Call) and isinstance(body[0].value.func, ast.Name) and body[0].value.func.id == a.args[0].arg
+                                      and not body[0].value.keywords and all(isinstance(x, ast.Name) for x in body[0].value.args)):
+                continue
+            v = body[0].targets[0].id
+            r = body[1]
+            if not (isinstance(r, ast.Return) and isinstance(r.value, ast.IfExp) and isinstance(r.value.body, ast.Name) and r.value.body.id == v
+                    and isinstance(r.value.orelse, ast.Constant) and r.value.orelse.value is None and isinstance(r.value.test, ast.Call)
+                    and isinstance(r.value.test.func, ast.Name) and r.value.test.func.id == v and not r.value.test.keywords
+                    and all(isinstance(x, ast.Name) for x in r.value.test.args)):
+                continue
+            ps = [x.arg for x in a.args[1:]]
+            ctor = [x.id for x in body[0].value.args]
+            call = [x.id for x in r.value.test.args]
+            if sorted(ctor + call) != sorted(ps) or len(set(ps)) != len(ps):
+                continue
+            shapes[key] = (ps, ctor, call)
+        return shapes[key]
+    changed = False
+    for fn in [n for n in ast.walk(tree) if isinstance(n, FUNCS)]:
+        for blk, i, st in _own_statements(fn):
+            if not (isinstance(st, ast.Assign) and len(st.targets) == 1 and isinstance(st.targets[0], ast.Name) and isinstance(st.value, ast.Call)
+                    and isinstance(st.value.func, ast.Attribute) and isinstance(st.value.func.value, ast.Name) and not st.value.keywords
+                    and not any(isinstance(x, ast.Starred) for x in st.value.args)):
+                continue
+            sh = shape_of(st.value.func.value.id, st.value.func.attr)
+            if sh is None or len(sh[0]) != len(st.value.args):
+                continue
+            u = st.targets[0].id
+            okname = u + '__ok'
+            if any(isinstance(n, ast.Name) and n.id == okname for n in ast.walk(fn)):
+                continue
+            # other uses of u: `u is None`, `u is not None`, u[..], u.attr
+            tests, bad = [], False
+            for n in ast.walk(fn):
+                if isinstance(n, ast.Name) and n.id == u and isinstance(n.ctx, ast.Load):
+                    par = getattr(n, '_ofparent', None)
+                    if isinstance(par, ast.Compare) and par.left is n and len(par.ops) == 1 and isinstance(par.ops[0], (ast.Is, ast.IsNot)) \
+                            and isinstance(par.comparators[0], ast.Constant) and par.comparators[0].value is None:
+                        tests.append(par)
+                    elif isinstance(par, (ast.Subscript, ast.Attribute)) and par.value is n:
+                        pass
+                    else:
+                        bad = True
+            if bad or not tests:
+                continue
+            by = dict(zip(sh[0], st.value.args))
+            cname = st.value.func.value
+            new_ctor = ast.copy_location(ast.Assign(targets=[ast.Name(id=u, ctx=ast.Store())],
+                                                    value=ast.Call(func=cname, args=[by[p_] for p_ in sh[1]], keywords=[])), st)
+            new_call = ast.copy_location(ast.Assign(targets=[ast.Name(id=okname, ctx=ast.Store())],
+                                                    value=ast.Call(func=ast.Name(id=u, ctx=ast.Load()), args=[by[p_] for p_ in sh[2]], keywords=[])), st)
+            j = blk.index(st)
+            blk[j:j + 1] = [new_ctor, new_call]
+
+            class _T(ast.NodeTransformer):
+                def visit_Compare(self_, n):
+                    if any(n is t for t in tests):
+                        nm = ast.Name(id=okname, ctx=ast.Load())
+                        return ast.copy_location(nm if isinstance(n.ops[0], ast.IsNot) else ast.UnaryOp(op=ast.Not(), operand=nm), n)
+                    self_.generic_visit(n)
+                    return n
+            _T().visit(fn)
+            ast.fix_missing_locations(fn)
+            changed = True
+    if changed:
+        _link(tree)
+    return changed
